@@ -191,7 +191,7 @@ Fixpoint to_database (c : col) (v : pyval) {struct c} : option pyval :=
   | CTime => match v with
              | PNone => Some PNone
              | PUtilTime ns => Some (PUtilTime ns)
-             | PInt ns => if ns <? NS_DAY then Some (PUtilTime ns) else None
+             | PInt ns => if (0 <=? ns) && (ns <? NS_DAY) then Some (PUtilTime ns) else None    (* util.Time(int): ValueError outside one day *)
              | PTimeOfDay us => Some (PUtilTime (us * 1000))
              | _ => None
              end
@@ -274,7 +274,7 @@ Definition scalar_value (rich : bool) (t : cqltype) (v : pyval) : option value :
       if rich && in_range 0 (2 ^ 32) (wall / US_DAY + EPOCH_OFFSET_DAYS) then Some (VDate (wall / US_DAY)) else None
   | TTime, PUtilTime ns => if in_i64 ns then Some (VTime ns) else None
   | TTime, PTimeOfDay us => if rich && in_i64 (us * 1000) then Some (VTime (us * 1000)) else None
-  | TTime, PInt ns => if rich && (ns <? NS_DAY) && in_i64 ns then Some (VTime ns) else None
+  | TTime, PInt ns => if rich && (0 <=? ns) && (ns <? NS_DAY) && in_i64 ns then Some (VTime ns) else None
   | TTimestamp, PInt ms => if in_i64 ms then Some (VTimestamp ms) else None
   (* DateType.serialize(datetime): int(calendar.timegm(v.utctimetuple()) * 1e3 + microsecond / 1e3) -- intended
      semantics = the exact instant in milliseconds truncated toward zero; the float expression meets it on `valid` *)
@@ -326,7 +326,9 @@ Definition denote := cql_value false.
 Definition prepared_value := cql_value true.
 
 (* ------------------------------------------------------------------ valid values per column *)
-Definition valid_float64 (m e : Z) : bool := (Z.abs m <? 2 ^ 53) && in_range (-1074) 972 e.
+(* a finite binary64: at most 53 significant bits, magnitude below 2^1024 (the mantissa may be given in lowest terms) *)
+Definition valid_float64 (m e : Z) : bool :=
+  (Z.abs m <? 2 ^ 53) && in_range (-1074) 1024 e && (Z.abs m * 2 ^ Z.max e 0 <? 2 ^ 1024).
 
 Definition valid_scalar (c : col) (v : pyval) : bool :=
   match c, v with
